@@ -26,6 +26,7 @@ import (
 	"github.com/jech/storrent/tor/piece"
 
 	"verifharness/internal/mktor"
+	"verifharness/wire"
 )
 
 type AdvMsg struct {
@@ -78,6 +79,9 @@ type Case struct {
 	} `json:"exp"`
 	NBlocks int64 `json:"nblocks"`
 	Tail    int64 `json:"tail"`
+	// liveframe
+	Sub  int    `json:"sub"`
+	Body string `json:"body"`
 	// mailbox
 	Cap int      `json:"cap"`
 	Mb  []MbStep `json:"mb"`
@@ -700,6 +704,55 @@ func runMailbox(c *Case, out *Out) {
 	}
 }
 
+// runLiveFrame (C05): a well-framed extended message with a hostile bencoded payload (the body classes of
+// Framing.tla) is sent to a live peer - real peer.Run with its own reader goroutine over net.Pipe.  Whatever the
+// payload, the process goes on: at worst that peer is disconnected.  (A panic in the reader goroutine is not
+// recovered by anybody: the worker dies, which the parent reports.)
+func runLiveFrame(c *Case, out *Out) {
+	seed := uint64(c.ID) + 77
+	t, err := mktor.New(mktor.Spec{Name: "lf", PieceLen: 32768, Length: 4*32768 - 100, Seed: seed}, "")
+	if err != nil {
+		out.Note = err.Error()
+		return
+	}
+	a, b := net.Pipe()
+	id := make([]byte, 20)
+	id[0] = 6
+	p := peer.New("", a, netip.MustParseAddrPort("192.0.2.56:6881"), false,
+		protocol.HandshakeResult{Hash: t.Hash, Id: hash.Hash(id), Fast: true, Extended: true})
+	p.Pieces = &t.Pieces
+	mailbox := make(chan peer.TorEvent, 4096)
+	torDone := make(chan struct{})
+	done := make(chan error, 1)
+	go func() { done <- peer.Run(p, mailbox, torDone, t.Info, t.Pieces.Bitmap(), nil) }()
+	go io.Copy(io.Discard, b)
+	time.Sleep(20 * time.Millisecond)
+	b.SetWriteDeadline(time.Now().Add(3 * time.Second))
+	frame := wire.BencFrame(c.Sub, c.Body)
+	_, werr := b.Write(frame)
+	// a second, harmless message: if the peer is still there it is handled as well
+	if werr == nil {
+		b.Write([]byte{0, 0, 0, 1, 1})
+	}
+	returned := false
+	select {
+	case <-done:
+		returned = true
+		out.Observed = append(out.Observed, AdvMsg{K: "disconnected"})
+	case <-time.After(300 * time.Millisecond):
+		out.Observed = append(out.Observed, AdvMsg{K: "kept"})
+	}
+	close(torDone)
+	b.Close()
+	if !returned {
+		select {
+		case <-done:
+		case <-time.After(5 * time.Second):
+			out.Violations = append(out.Violations, Viol{"C05", "peer-hang", fmt.Sprintf("peer.Run did not return after an extended message (sub-id %d, payload class %s) and the end of the connection", c.Sub, c.Body)})
+		}
+	}
+}
+
 // Handle is the worker-side entry point.
 func Handle(in []byte) any {
 	var c Case
@@ -716,6 +769,8 @@ func Handle(in []byte) any {
 		runBlockName(&c, out)
 	case "mailbox":
 		runMailbox(&c, out)
+	case "liveframe":
+		runLiveFrame(&c, out)
 	default:
 		out.Note = "unknown kind"
 	}
